@@ -1,7 +1,6 @@
-(* Object-level refinement for the result-class generator (C01 accept / preserve, C05 strict):
-   the classes generated for a selection set accept and cover every conformant response object.
-   Sub-language: selection sets of fields only (no spreads / inline fragments), leaf fields of scalar /
-   enum type and composite fields of OBJECT type at any depth.  Guards are boolean (sels_ok). *)
+(* Infrastructure for the object-level refinement of the result-class generator (C01 / C05):
+   inversion of the monadic folds of parse_type_def, the _public_names invariant, fields-only
+   selection sets, leaves, wrappers, and the boolean guard sels_ok. *)
 From Coq Require Import List String Ascii Bool Arith Lia ZArith.
 From AC Require Import Base.Strs Base.Sexp Base.Json Gql.Schema Gql.Exec Py.Ann Py.Pydantic
      Model.Names Model.Results Proofs.ResultsP.
@@ -340,3 +339,279 @@ Proof.
   - rewrite eqb_neq_false; [apply IH; auto|].
     intro E. apply H1. rewrite E. apply in_map, Hin.
 Qed.
+
+(* ------------------------------------------------------------------------------------------- *)
+(* 4. Leaves: what GraphQL's result coercion produces is accepted by the generated annotation     *)
+
+Lemma scalar_leaf_accepts C S clsacc enums n j :
+  leaf_conf S n DScalar j = true -> j <> JNull ->
+  acc_ann clsacc enums (fst (scalar_ann C n false)) j = true.
+Proof.
+  unfold scalar_ann, simple_type, leaf_conf. intros H Hn.
+  destruct (String.eqb n "String") eqn:E1.
+  { apply String.eqb_eq in E1. subst. simpl in *. destruct j; try discriminate; reflexivity. }
+  destruct (String.eqb n "ID") eqn:E2.
+  { apply String.eqb_eq in E2. subst. simpl in *. destruct j; try discriminate; reflexivity. }
+  destruct (String.eqb n "Int") eqn:E3.
+  { simpl in *. destruct j; try discriminate; reflexivity. }
+  destruct (String.eqb n "Boolean") eqn:E4.
+  { apply String.eqb_eq in E4. subst. simpl in *. destruct j; try discriminate; reflexivity. }
+  destruct (String.eqb n "Float") eqn:E5.
+  { simpl in *. destruct j; try discriminate; reflexivity. }
+  destruct (find _ (cf_scalars C)); simpl.
+  - destruct j; try reflexivity. congruence.
+  - reflexivity.
+Qed.
+
+Lemma enum_assoc S n vs : lookup_type S n = Some (DEnum vs) -> assoc n (schema_enums S) = Some vs.
+Proof.
+  unfold lookup_type, schema_enums. induction (s_types S) as [|[k d] r IH]; simpl; [discriminate|].
+  destruct (String.eqb n k) eqn:E.
+  - intro H. inversion H; subst. simpl. rewrite E. reflexivity.
+  - intro H. destruct d; simpl; try (apply IH; exact H). rewrite E. apply IH, H.
+Qed.
+
+Lemma enum_leaf_accepts S clsacc n vs j :
+  lookup_type S n = Some (DEnum vs) -> leaf_conf S n (DEnum vs) j = true ->
+  acc_ann clsacc (schema_enums S) (AEnum n) j = true.
+Proof.
+  intros Hl H. simpl in *. destruct j; try discriminate. rewrite (enum_assoc S n vs Hl). exact H.
+Qed.
+
+(* ------------------------------------------------------------------------------------------- *)
+(* 5. Wrappers                                                                                  *)
+
+Fixpoint base_name (t : gtype) : string :=
+  match t with TNamed n => n | TList t' | TNonNull t' => base_name t' end.
+
+(* the null / list structure of CompleteValue with obligation P at the named type *)
+Fixpoint wrapP (P : json -> Prop) (t : gtype) (j : json) : Prop :=
+  match t with
+  | TNamed _ => j = JNull \/ P j
+  | TList t' => j = JNull \/ exists l, j = JArr l /\ Forall (wrapP P t') l
+  | TNonNull t' => j <> JNull /\ wrapP P t' j
+  end.
+
+Lemma wrapP_impl (P Q : json -> Prop) : (forall j, P j -> Q j) -> forall t j, wrapP P t j -> wrapP Q t j.
+Proof.
+  intro H. induction t as [n | t IH | t IH]; intros j; simpl.
+  - intros [E | HP]; auto.
+  - intros [E | [l [E Hf]]]; auto. right. exists l. split; auto.
+    rewrite Forall_forall in *. intros x Hx. apply IH, Hf, Hx.
+  - intros [E HP]. auto.
+Qed.
+
+Lemma conf_val_wrapP leafp eo S frs scs : forall t fc j,
+  conf_val_gen leafp eo fc S frs t scs j = true ->
+  wrapP (fun j' => j' <> JNull /\
+                   exists k, conf_val_gen leafp eo (Datatypes.S k) S frs (TNamed (base_name t)) scs j' = true) t j.
+Proof.
+  induction t as [n | t IH | t IH]; intros fc j H; destruct fc as [|k]; try discriminate H.
+  - simpl. destruct j; try (right; split; [discriminate | exists k; exact H]). left; reflexivity.
+  - simpl in H. simpl. destruct j; try discriminate H; [left; reflexivity|]. right. exists l. split; [reflexivity|].
+    rewrite forallb_forall in H. apply Forall_forall. intros x Hx. apply (IH k), H, Hx.
+  - simpl in H. simpl. destruct j; try discriminate H; (split; [discriminate | apply (IH k), H]).
+Qed.
+
+Lemma image_opt leaf t a : is_nonnull t = false -> image_of leaf t = Some a -> exists x, a = AOpt x.
+Proof.
+  destruct t as [n | t' | t']; simpl; intros Hn H; try discriminate Hn.
+  - destruct (leaf n); simpl in H; [| discriminate]. inversion H. eauto.
+  - destruct (image_of leaf t'); simpl in H; [| discriminate]. inversion H. eauto.
+Qed.
+
+Section WrapGen.
+  (* any checker that treats Optional and List the way acc_ann and cov_ann do *)
+  Variable W : ann -> json -> bool.
+  Hypothesis W_opt : forall a j, W (AOpt a) j = is_null j || W a j.
+  Hypothesis W_list : forall a j, W (AList a) j = match j with JArr l => forallb (W a) l | _ => false end.
+  Variable leaf : string -> option ann.
+
+  Lemma wrapP_W : forall t a j P, wf_gtype t = true -> image_of leaf t = Some a -> wrapP P t j ->
+    (forall x j', leaf (base_name t) = Some x -> P j' -> W x j' = true) -> W a j = true.
+  Proof.
+    induction t as [n | t IH | t IH]; intros a j P Hwf Hi Hw HP.
+    - simpl in Hi. destruct (leaf n) as [x|] eqn:E; simpl in Hi; [| discriminate]. inversion Hi; subst.
+      rewrite W_opt. destruct Hw as [Hj | Hj]; [subst; reflexivity|].
+      rewrite (HP x j E Hj). apply orb_true_r.
+    - simpl in Hi. destruct (image_of leaf t) as [a'|] eqn:E; simpl in Hi; [| discriminate]. inversion Hi; subst.
+      rewrite W_opt. destruct Hw as [Hj | [l [Hj Hf]]]; [subst; reflexivity|]. subst j.
+      rewrite W_list. simpl. apply forallb_forall. intros x Hx. rewrite Forall_forall in Hf.
+      eapply IH; eauto.
+    - assert (Hwf' : wf_gtype t = true) by (simpl in Hwf; destruct t; auto; discriminate).
+      assert (Hnn : is_nonnull t = false) by (destruct t; auto; simpl in Hwf; discriminate).
+      simpl in Hi. destruct (image_of leaf t) as [a'|] eqn:E; simpl in Hi; [| discriminate]. inversion Hi; subst.
+      destruct (image_opt leaf t a' Hnn E) as [x Hx]. subst a'. simpl.
+      destruct Hw as [Hj Hw]. specialize (IH (AOpt x) j P Hwf' eq_refl Hw HP).
+      rewrite W_opt in IH. apply orb_true_iff in IH as [IH | IH]; [| exact IH].
+      destruct j; try discriminate IH. congruence.
+  Qed.
+End WrapGen.
+
+Lemma cond_ann_acc clsacc enums cond a j :
+  acc_ann clsacc enums a j = true -> acc_ann clsacc enums (cond_ann false cond a) j = true.
+Proof.
+  unfold cond_ann. destruct cond; auto. destruct (is_opt a); auto. intro H. simpl. rewrite H. apply orb_true_r.
+Qed.
+
+Lemma cond_ann_cov clscov cond a j :
+  cov_ann clscov a j = true -> cov_ann clscov (cond_ann false cond a) j = true.
+Proof.
+  unfold cond_ann. destruct cond; auto. destruct (is_opt a); auto. intro H. simpl. rewrite H. apply orb_true_r.
+Qed.
+
+(* the context of a field's annotation is the context of its named type *)
+Lemma field_type_ann_ctx C S frs f0 fsub cn : forall t nl r,
+  field_type_ann C S frs f0 fsub t nl cn false = Ok r ->
+  exists a0, named_ann C S frs f0 fsub (base_name t) false cn false = Ok (a0, snd r).
+Proof.
+  induction t as [n | t IH | t IH]; intros nl r H; simpl in H.
+  - destruct r as [a c]. destruct (named_nullable C S frs f0 fsub cn n nl false a c H) as [a0 [H0 _]].
+    exists a0. exact H0.
+  - apply bind_ok in H. destruct H as [r' [H1 H2]]. inversion H2; subst. simpl. eapply IH; eauto.
+  - eapply IH; eauto.
+Qed.
+
+(* ------------------------------------------------------------------------------------------- *)
+(* 6. The guard: fields only, leaf fields of scalar / enum type, composite fields of object type  *)
+
+Definition keys_ok (C : cfg) (keys : list string) : bool :=
+  nodupb keys &&
+  forallb (fun k => String.eqb (py_field_name C k) k || negb (mem (py_field_name C k) keys)) keys.
+
+Definition field_ok (rec : string -> list sel -> bool) (S : schema) (nested : bool) (tn : string)
+           (f : fnode) : bool :=
+  (match fn_mixins f with [] => true | _ => false end) &&
+  if String.eqb (fn_name f) "__typename" then
+    (match fn_sub f with None => true | Some _ => false end) && negb (nested && fn_cond f) &&
+    (match schema_field_type S tn "__typename" with
+     | Ok (TNonNull (TNamed s)) => String.eqb s "String" | _ => false end) &&
+    (match lookup_type S "String" with Some DScalar => true | _ => false end)
+  else
+    match schema_field_type S tn (fn_name f) with
+    | Ok t =>
+        wf_gtype t &&
+        match lookup_type S (base_name t), fn_sub f with
+        | Some DScalar, None | Some (DEnum _), None => true
+        | Some (DObject _ _), Some sub => rec (base_name t) sub
+        | _, _ => false
+        end
+    | Err _ => false
+    end.
+
+(* [cov]: additionally require pairwise distinct Python field names (needed for preservation) *)
+Fixpoint sels_ok (fuel : nat) (cov : bool) (C : cfg) (S : schema) (nested : bool) (tn : string)
+         (sels : list sel) : bool :=
+  match fuel with
+  | O => false
+  | Datatypes.S g =>
+      fields_only sels && keys_ok C (map field_key (fnodes_of sels)) &&
+      (negb cov || nodupb (map (fun f => py_field_name C (field_key f)) (fnodes_of sels))) &&
+      forallb (field_ok (sels_ok g cov C S true) S nested tn) (fnodes_of sels)
+  end.
+
+Definition is_object (S : schema) (n : string) : bool :=
+  match lookup_type S n with Some (DObject _ _) => true | _ => false end.
+
+Definition no_basemodel (cls : list pclass) : bool :=
+  forallb (fun c => negb (String.eqb (c_name c) "BaseModel")) cls.
+
+(* ------------------------------------------------------------------------------------------- *)
+(* 7. Small facts about the pieces of a generated class                                          *)
+
+Lemma mro_simple cs n c k :
+  lookup_class cs n = Some c -> c_bases c = ["BaseModel"] -> n <> "BaseModel" ->
+  mro_fields (Datatypes.S (Datatypes.S k)) cs n = Some (c_fields c).
+Proof.
+  intros Hl Hb Hn. cbn [mro_fields]. rewrite (eqb_neq_false _ _ Hn), Hl, Hb. cbn [fold_left].
+  rewrite String.eqb_refl. unfold mro_merge. simpl. rewrite app_nil_r. reflexivity.
+Qed.
+
+Lemma last_wins_In f l : In f (last_wins l) -> In f l.
+Proof.
+  induction l as [|g r IH]; simpl; [auto|].
+  destruct (existsb _ r); [intro H; right; apply IH, H|].
+  intros [H | H]; [left; exact H | right; apply IH, H].
+Qed.
+
+Lemma last_wins_nodup l : NoDup (map p_name l) -> last_wins l = l.
+Proof.
+  induction l as [|g r IH]; simpl; [reflexivity|]. intro H. inversion H; subst.
+  destruct (existsb (fun g0 => String.eqb (p_name g0) (p_name g)) r) eqn:E.
+  - apply existsb_exists in E. destruct E as [x [Hx He]]. apply String.eqb_eq in He.
+    exfalso. apply H2. rewrite <- He. apply in_map, Hx.
+  - f_equal. apply IH, H3.
+Qed.
+
+Definition field_check (rec : ann -> json -> bool) (kv : list (string * json)) (f : pfield) : bool :=
+  match jlookup (field_key_of f) kv with
+  | Some v => rec (p_ann f) v
+  | None =>
+      match (match p_alias f with Some _ => jlookup (p_name f) kv | None => None end) with
+      | Some v => rec (p_ann f) v
+      | None => p_default_none f
+      end
+  end.
+
+Lemma class_accepts_check rec fs kv :
+  class_accepts rec (Some fs) (JObj kv) = forallb (field_check rec kv) (last_wins fs).
+Proof. reflexivity. Qed.
+
+Lemma mk_pfield_key name key a il c : field_key_of (mk_pfield name key a il c) = key.
+Proof.
+  unfold field_key_of, mk_pfield. simpl. destruct (String.eqb name key) eqn:E; [| reflexivity].
+  apply String.eqb_eq in E. exact E.
+Qed.
+
+Lemma field_pf_inv C S frs fuel' cn tn tv f pf ctx :
+  field_pf C S frs fuel' cn tn tv f = Ok (pf, ctx) ->
+  exists t a0 il,
+    schema_field_type S tn (fn_name f) = Ok t /\
+    field_ann_lit C S frs fuel' tv f t (cn +++ pascal_s (py_field_name C (field_key f))) = Ok (a0, ctx, il) /\
+    pf = mk_pfield (py_field_name C (field_key f)) (field_key f) (cond_ann il (fn_cond f) a0) il (fn_cond f).
+Proof.
+  unfold field_pf. intro H. apply bind_ok in H. destruct H as [t [Ht H]].
+  apply bind_ok in H. destruct H as [[[a0 ctx'] il] [Ha H]]. inversion H; subst.
+  exists t, a0, il. auto.
+Qed.
+
+Lemma typename_values_object S rc tn :
+  is_object S tn = true -> r_type rc = tn -> typename_values S [rc] tn = [tn].
+Proof.
+  unfold is_object, typename_values. intros H E. simpl. rewrite E.
+  destruct (lookup_type S tn) as [[]|]; try discriminate; reflexivity.
+Qed.
+
+Lemma field_type_on_schema S tn name t :
+  name <> "__typename" -> schema_field_type S tn name = Ok t -> field_type_on S tn name = Some t.
+Proof.
+  intros Hn. unfold schema_field_type, field_type_on. rewrite (eqb_neq_false _ _ Hn).
+  destruct (lookup_type S tn) as [d|]; [| discriminate].
+  destruct (type_fields d) as [fs|]; [| discriminate].
+  destruct (assoc name fs); [intro H; inversion H; reflexivity | discriminate].
+Qed.
+
+Lemma sort_strings_single x : sort_strings [x] = [x].
+Proof. reflexivity. Qed.
+
+Lemma mem_single x : mem x [x] = true.
+Proof. unfold mem. simpl. rewrite String.eqb_refl. reflexivity. Qed.
+
+Lemma find_key_nodup : forall (l : list pfield) f,
+  NoDup (map field_key_of l) -> In f l ->
+  find (fun g => String.eqb (field_key_of g) (field_key_of f)) l = Some f.
+Proof.
+  induction l as [|g r IH]; intros f Hnd Hin; [contradiction|].
+  simpl in *. inversion Hnd; subst. destruct Hin as [E | Hin].
+  - subst. rewrite String.eqb_refl. reflexivity.
+  - rewrite eqb_neq_false; [apply IH; auto|]. intro E. apply H1. rewrite E. apply in_map, Hin.
+Qed.
+
+Definition tv_ok (nested : bool) (tn : string) (tv : option (list string)) : Prop :=
+  tv = None \/ (tv = Some [tn] /\ nested = true).
+
+Definition table_ok (cs out : list pclass) : Prop :=
+  forall c, In c out -> lookup_class cs (c_name c) = Some c /\ c_name c <> "BaseModel".
+
+Lemma table_ok_incl cs out out' : table_ok cs out -> incl out' out -> table_ok cs out'.
+Proof. intros H Hi c Hc. apply H, Hi, Hc. Qed.
